@@ -9,7 +9,7 @@
      InputFile.{ui_json setter, data getter/setter, write_ui_json, read_ui_json}  with validate=False
    The workspace is a [world] (Model/Enforcers.v); a Workspace object is the token of its path. *)
 From Coq Require Import String.
-From GV Require Import Prelude.Base Model.PyVal Model.Enforcers Model.UiForms.
+From GV Require Import Prelude.Base Model.PyVal Model.UiRules Model.Enforcers Model.UiForms.
 From GVgen Require Import PyLite_SharedUtils PyLite_UiUtils PyLite_Validators Table_UiValidations PyLite_InputFile.
 Local Open Scope string_scope.
 
@@ -239,3 +239,45 @@ Definition atom_safe (v : pv) : bool :=
 Definition canon (v : pv) : pv := match v with PEnt _ u => PUuid u | _ => v end.
 Definition is_atom (v : pv) : bool :=
   match v with PList _ | PTuple _ | PDict _ | PType _ => false | _ => true end.
+
+(* ------------------------------------------------------------------ whole dictionaries (statements of C14_file_roundtrip) *)
+(* the value a list of functions gives for a leaf (the theorems only use it where apply_all succeeds) *)
+Definition unwrap (fs : list (pv -> res pv)) (a : pv) : pv :=
+  match apply_all fs a with Ok x => x | Raise _ => PNone end.
+
+(* map a function over the leaves of a ui.json-shaped value: dictionaries at any depth, lists (and, for demote, tuples,
+   which become lists) one level deep *)
+Fixpoint tmap (g : pv -> pv) (v : pv) : pv :=
+  match v with
+  | PDict d => PDict (map (fun kv => (fst kv, tmap g (snd kv))) d)
+  | PList l | PTuple l => PList (map g l)
+  | a => g a
+  end.
+
+(* ui.json-shaped: nested dictionaries with distinct string keys whose other members are leaves satisfying L or lists
+   (tuples when [tup]) of such leaves *)
+Fixpoint tshape (tup : bool) (L : pv -> bool) (v : pv) : bool :=
+  match v with
+  | PDict d => forallb (fun kv => is_pstr (fst kv) && tshape tup L (snd kv)) d && keys_distinct (map fst d)
+  | PList l => forallb (fun x => is_atom x && L x) l
+  | PTuple l => tup && forallb (fun x => is_atom x && L x) l
+  | a => is_atom a && L a
+  end.
+
+Definition is_ok {A} (m : res A) : bool := match m with Ok _ => true | Raise _ => false end.
+
+(* every nested dictionary (not the top level) passes InputFile.ui_validation, as numify requires *)
+Fixpoint forms_pass (top : bool) (v : pv) : bool :=
+  match v with
+  | PDict d => (top || is_ok (ui_validation_with ui_validations_table v)) && forallb (fun kv => forms_pass false (snd kv)) d
+  | _ => true
+  end.
+
+(* what is on disk, and what the reader returns: leaf by leaf *)
+Definition text_leaf (a : pv) : pv := unwrap write_funs (unwrap demote_funs a).
+Definition text_tree (v : pv) : pv := tmap text_leaf v.
+Definition canon_tree (v : pv) : pv := tmap canon v.
+
+(* write_ui_json's codec followed by the reader's: demote, stringify, json, numify *)
+Definition file_trip (fuel : nat) (ui : pv) : res pv :=
+  d <- InputFile_demote fuel ui ;; s <- InputFile_stringify fuel d ;; j <- json_roundtrip s ;; InputFile_numify fuel j.
